@@ -189,8 +189,14 @@ pub fn race_mutating_ops() -> Vec<OpSpec> {
         // stopped in is the one the creation happens in
         o(Op::MkdirAll { path: s("a/../pwn/x"), mode: 0o755 }),
         o(Op::MkdirAll { path: s("a/b/../../pwn2"), mode: 0o711 }).c(),
-        o(Op::MkdirAll { path: s("a/b/c/../../../a/../pwn3"), mode: 0o700 }),
         o(Op::Create { path: s("a/b/../../newd"), kind: CreateKind::Dir(0o755) }),
+        // the other dimensions of the calls: rename flags, a source and a destination that both walk
+        // through '..', exclusive creation, removal of a spelling that re-enters its own parent
+        o(Op::Rename { src: s("a/b/c/d/leaf"), dst: s("a/b/../../moved2"), flags: libc::RENAME_NOREPLACE }),
+        o(Op::Rename { src: s("a/b/c/../c/d"), dst: s("etc-target"), flags: libc::RENAME_EXCHANGE }).c(),
+        o(Op::RemoveAll { path: s("a/b/../b/c") }),
+        o(Op::CreateFile { path: s("a/b/../../topnew"), flags: libc::O_WRONLY | libc::O_EXCL, mode: 0o640 }),
+        o(Op::Create { path: s("a/../hl2"), kind: CreateKind::Hardlink(s("a/b/c/d/../d/leaf")) }),
     ]
 }
 
